@@ -37,6 +37,9 @@ def obligations(tier, seed):
     n = 2 if tier == 'quick' else 3
     def top(i, n=4, hi=13):
         return ['b%d == %s' % (hi - j, bool((i >> j) & 1)) for j in range(n)]
+
+    def ovb(ov):
+        return ['b%d == %s' % (14 + i, bool((ov >> i) & 1)) for i in range(6)]
     ovs = (0,) if tier == 'quick' else (0, 1, 2)
     q = ['b9 == %s' % bool(seed & 1), 'b8 == %s' % bool(seed & 2)] if tier == 'quick' else []
     dev = list(range(3, pk.N_OV))
@@ -44,11 +47,11 @@ def obligations(tier, seed):
         # single-option deviations: a seeded third of them per quick run
         dev = [ov for ov in dev if (ov + seed) % 3 == 0]
     obs = [
-        dict(name='C08a.minify_total', fn='minify_total', timeout=t, shards=[top(i) + q + ['ov == %d' % ov] for i in range(16) for ov in ovs],
+        dict(name='C08a.minify_total', fn='minify_total', timeout=t, shards=[top(i) + q + ovb(ov) for i in range(16) for ov in ovs],
              bounds='all %d statement templates x %d child kinds x option vectors %r' % (pk.N_STMT, pk.N_CHILD, ovs)),
         dict(name='C08a.minify_total_expr', fn='minify_total_expr', timeout=t, public_replay='public_minify_total_expr',
-             shards=[top(i) + q + ['ov == 0'] for i in range(16)], bounds='all %d expression slots x %d child kinds, default options' % (pk.N_SLOT, pk.N_CHILD)),
-        dict(name='C08a.option_vectors', fn='minify_total', timeout=t, shards=([top((ov * 5 + seed) % 16) + q + ['ov == %d' % ov] for ov in dev] if tier == 'quick' else [top(i, 2) + ['ov == %d' % ov] for ov in dev for i in range(4)]),
+             shards=[top(i) + q + ovb(0) for i in range(16)], bounds='all %d expression slots x %d child kinds, default options' % (pk.N_SLOT, pk.N_CHILD)),
+        dict(name='C08a.option_vectors', fn='minify_total', timeout=t, shards=([top((ov * 5 + seed) % 16) + q + ovb(ov) for ov in dev] if tier == 'quick' else [top(i, 2) + ovb(ov) for ov in dev for i in range(4)]),
              bounds='single-option deviations %r x all statement templates x child kinds' % (dev,)),
         dict(name='C08b.integer_total', fn='integer_total', timeout=t, shards=[[]], bounds='13 representative digit counts around the hex/decimal cross-over and the 4300-digit limit x 10 previous-token classes', public_replay='public_integer_total'),
         dict(name='C08b.fstr_str_total', fn='fstr_str_total', timeout=t, shards=[['len(s) <= %d' % n]], bounds='|s| <= %d, PEP 701, all quotes' % n,
@@ -62,5 +65,5 @@ def obligations(tier, seed):
     ]
     if tier == 'thorough':
         obs.append(dict(name='C08a.minify_total.py311', fn='minify_total', timeout=t, python='py311',
-                        shards=[top(i) + ['ov == %d' % ov] for i in range(16) for ov in (0, 2)], bounds='same on Python 3.11.7'))
+                        shards=[top(i) + ovb(ov) for i in range(16) for ov in (0, 2)], bounds='same on Python 3.11.7'))
     return obs
